@@ -453,6 +453,8 @@ def m_pb_parse_terminated(e, args, info):
 
 @exact('syn::parse2')
 def m_parse2(e, args, info):
+    if getattr(e, 'stub_parse2', False):
+        return ok(Opq('parsed', generic_of(info) or ''))
     ts = args[0]
     pb = PB(list(ts.items), 0)
     v, er = parse_as(e, pb, generic_of(info))
